@@ -2,7 +2,7 @@ SPECIFICATION Spec
 CONSTANTS
   N = 2
   Inc = 2
-  MaxH = 3
+  MaxH = 2
   MaxReq = 1
   DesigSets <- DesigAll2
   FeeSet <- FeesOne
